@@ -253,8 +253,11 @@ def gen_cfg(rng):
     # (indexes a (spin, array) tuple; noted in DESIGN.md): derivative entries only with MOLGP
     deriv = rng.chance(0.4) and version == 1 and not any(k["mode"] == "POL" for k in kernels)
     nsamps = [rng.choice([40, 77, 150, 301]) for _ in range(nsys)]
-    if rng.chance(0.25):
-        nsamps[rng.below(nsys)] = 10050  # crosses the internal 10000-sample chunk
+    if rng.chance(0.3):
+        # around / across the internal 10000-sample chunk (exact multiples and off-by-one)
+        nsamps[rng.below(nsys)] = rng.choice([10050, 10050, 9999, 10000, 10001, 20000, 20001])
+    if rng.chance(0.1):
+        nsamps[rng.below(nsys)] = rng.choice([1, 2, 3])  # a system with next to no samples
     return {
         "version": version,
         "slmode": slmode,
@@ -306,7 +309,8 @@ def gen_history(seed):
     cfg = gen_cfg(rng)
     ids = ["sys%d" % i for i in range(cfg["nsys"])]
     ops = []
-    ctrl_ids = rng.sample(ids, rng.randint(1, min(3, len(ids))))
+    big_enough = [i for i, n_ in zip(ids, cfg["nsamps"]) if n_ >= 40] or ids  # control points come from real samples
+    ctrl_ids = rng.sample(big_enough, rng.randint(1, min(3, len(big_enough))))
     ops.append({"op": "ctrl", "ids": ctrl_ids, "reduce": bool(rng.chance(0.7)), "npick": rng.randint(5, 14), "pseed": rng.below(10**6)})
     # store all systems, in batches, some twice
     order = list(ids)
@@ -354,7 +358,7 @@ def gen_history(seed):
     if rng.chance(0.3):
         # retrain on the same objects with different control points (same count when not reduced)
         first = ops[0]
-        ids2 = rng.sample(ids, len(first["ids"]))
+        ids2 = rng.sample(big_enough, len(first["ids"]))
         ops.append({"op": "ctrl", "ids": ids2, "reduce": first["reduce"], "npick": first["npick"], "pseed": rng.below(10**6)})
         ops.append({"op": "store", "ids": list(ids)})
         ops.append({"op": "add", "rxns": [gen_reaction(rng, cfg, ids) for _ in range(rng.randint(2, 5))]})
